@@ -4,6 +4,8 @@ import SekaiProofs.Lemmas.Dec
 import Sekai.Gen.App
 import Sekai.Model.App
 import Sekai.Model.Ubi
+import Sekai.Gen.Keys
+import SekaiProofs.Lemmas.Keys
 /-! # C13 — Monetary policy bounds: inflation, UBI and supply caps
 
 * `inflation_bound`: block inflation never lifts supply above the period snapshot grown pro rata at the configured
@@ -542,5 +544,15 @@ theorem mint_after_gov_edit_within_cap (t t1 t2 : TokenInfo) (ps pc bank amt : I
 
 example : govEdit ⟨900, 1000, 2, false⟩ 0 0 = some ⟨900, 1000, 2, false⟩ ∧
     registryMint ⟨900, 1000, 2, false⟩ 900 900 = none := by decide
+
+/-! ### Key spaces of the stores this model keeps in separate maps (table `Gen.Keys`)
+
+The model keeps each record kind of a module in a field of its own; the module keeps them in ONE store under byte prefixes.
+No prefix extends another (checked on the regenerated table), so by `Sekai.Keys.keys_of_different_kinds_differ` a key of one
+kind is never a key of another kind. -/
+
+theorem distributor_key_spaces_disjoint : Sekai.Keys.disjoint Sekai.Gen.Keys.stores "distributor" = true := by decide +kernel
+
+theorem ubi_key_spaces_disjoint : Sekai.Keys.disjoint Sekai.Gen.Keys.stores "ubi" = true := by decide +kernel
 
 end Sekai.Props.C13
